@@ -51,6 +51,15 @@ def _has_id_intersection(parent: 'Task', children: Iterable['Task']):
     return len(parent_tree_ids.intersection(new_task_ids)) > 0
 
 
+def _linked_with_any(tasks: Iterable['Task'], others: Iterable['Task']) -> bool:
+    other_ids = set([id(o) for o in others])
+    for t in tasks:
+        for linked in list(t.predecessors) + list(t.successors):
+            if id(linked) in other_ids:
+                return True
+    return False
+
+
 def _check_not_none(obj: Any, name: str):
     if obj is None:
         raise RuntimeError(f"{name} is None")
@@ -725,6 +734,8 @@ class Task:
             if parent is self or parent in self.all_children:
                 raise RuntimeError(f"Task {parent.id} is a child of task {self.id}. Can't make child "
                                    f"a parent of its parent")
+            if _linked_with_any(_collect_subtree(self), [parent] + parent.__get_all_parents()):
+                raise RuntimeError("Can't make a task a child of its predecessor or successor")
 
         if self.__parent is not None and self in self.__parent.__children:
             self.__parent.__children.remove(self)
@@ -788,6 +799,8 @@ class Task:
         for ch in value:
             if ch is self or self in ch.all_children:
                 raise RuntimeError(f"Task {self.id} is a child of {ch.id}. Can't make child a parent of its parent")
+            if _linked_with_any(_collect_subtree(ch), [self] + self.__get_all_parents()):
+                raise RuntimeError("Can't make a task a child of its predecessor or successor")
 
         for v in self.__children:
             v.__parent = None
@@ -825,8 +838,9 @@ class Task:
         _check_no_nones_in_list(value, 'predecessors')
 
         parents = self.all_parents
+        children = self.all_children
         for v in value:
-            if v in parents:
+            if v in parents or v in children:
                 raise RuntimeError("Can't set parent as predecessor")
 
         for v in value:
@@ -871,8 +885,9 @@ class Task:
         _check_no_nones_in_list(value, 'successors')
 
         parents = self.all_parents
+        children = self.all_children
         for v in value:
-            if v in parents:
+            if v in parents or v in children:
                 raise RuntimeError("Can't set parent as successor")
 
         for v in value:
